@@ -364,6 +364,40 @@ static void cmd_lq(void) {
     buf_free(k1); buf_free(k2);
 }
 
+// field / group / pairing operations on operands and results placed flush against guard pages: the assembly
+// routines are invisible to ASan, an out-of-bounds access faults instead
+static void cmd_fieldguard(void) {
+    rng_seed(strtoull(arg(1), NULL, 10));
+    int n = (int) argi(2);
+    int saved = g_guard;
+    for (int it = 0; it < n; it++) {
+        g_guard = 1 + (it & 1);
+        Buf ba = buf_alloc(sizeof(Fq)), bb = buf_alloc(sizeof(Fq)), bo = buf_alloc(sizeof(Fq));
+        Fq& a = *(Fq*) ba.p; Fq& b = *(Fq*) bb.p; Fq& o = *(Fq*) bo.p;
+        a.random(rng_cb); b.random(rng_cb);
+        o.add(a, b); o.subtract(o, b); o.multiply(o, b); o.square(o); o.multiply2(o); o.negate(o); o.inverse(o);
+        BigInt<384> v; o.get(v); o.set(v);
+        buf_free(ba); buf_free(bb); buf_free(bo);
+        Buf b12a = buf_alloc(sizeof(Fq12)), b12o = buf_alloc(sizeof(Fq12));
+        Fq12& x = *(Fq12*) b12a.p; Fq12& y = *(Fq12*) b12o.p;
+        x.random(rng_cb);
+        y.multiply(x, x); y.square(y); y.inverse(y); y.frobenius_map(y, 1 + it % 11);
+        Buf bg = buf_alloc(sizeof(G1)), bh = buf_alloc(sizeof(G2));
+        G1& p = *(G1*) bg.p; G2& q = *(G2*) bh.p;
+        BigInt<256> k; rng_cb(k.bytes, 32);
+        p.multiply(G1::one, k); q.multiply(G2::one, k);
+        p.add(p, p); q.multiply2(q);
+        Buf bpa = buf_alloc(sizeof(G1Affine)), bqa = buf_alloc(sizeof(G2Affine));
+        G1Affine& pa = *(G1Affine*) bpa.p; G2Affine& qa = *(G2Affine*) bqa.p;
+        pa.from_projective(p); qa.from_projective(q);
+        pairing<G2Affine>(y, pa, qa);
+        buf_free(b12a); buf_free(b12o); buf_free(bg); buf_free(bh); buf_free(bpa); buf_free(bqa);
+    }
+    g_guard = saved;
+    printf(" iterations=%d", n);
+}
+
+#ifndef SCHEME_NO_MAIN
 int main(int argc, char** argv) {
     for (int i = 1; i < argc; i++) {
         if (!strcmp(argv[i], "--guard-end")) g_guard = 1;
@@ -380,9 +414,11 @@ int main(int argc, char** argv) {
         if (!strcmp(op, "gen")) cmd_gen();
         else if (!strcmp(op, "unm")) cmd_unm();
         else if (!strcmp(op, "lq")) cmd_lq();
+        else if (!strcmp(op, "fieldguard")) cmd_fieldguard();
         else die("unknown op", op);
         putchar('\n');
         fflush(stdout);
     }
     return 0;
 }
+#endif
